@@ -510,7 +510,7 @@ PROPS = {
     "C14": dict(fams=[("crash", 3), ("snap", 2)], corpus=["crash", "snap"], mc="MC_crash3", mc_deep="MC_crash3_deep", crashpoints=True),
     "C09": dict(fams=[("member", 3), ("member5", 3)], corpus=["member"], mc="MC_member3", mc_deep="MC_member3_deep", monitor_props=["C01", "C02", "C07", "C09", "C05"],
                 gen=[("Gen_member4", ["a", "b"], 45, ["c", "d"])]),
-    "C10": dict(fams=[("snap", 6)], corpus=["snap"], mc="MC_snap3", mc_deep="MC_snapwin3", gen=[("Gen_snap3", ["a", "b", "c"], 45)], snaprace=True),
+    "C10": dict(fams=[("snap", 6)], corpus=["snap"], mc="MC_snap3", mc_deep="MC_snapwin3", gen=[("Gen_snap3", ["a", "b", "c"], 45), ("Gen_snapwin3", ["a", "b", "c"], 45)], snaprace=True),
     "C11": dict(fams=[("snap", 6)], corpus=["snap"], mc="MC_snap3", mc_deep="MC_snap3_deep", gen=[("Gen_snap3", ["a", "b", "c"], 45)], snaprace=True),
     "C12": dict(storage=True),
     "C13": dict(storage=True),
